@@ -191,6 +191,79 @@ def run_family(rep, cfg, pat, floor, prop):
                 rep.ok('pre:' + tag, 'callsite-precondition', site, '%d kernel call sites, all operands within the callee contracts' % len(ctx.sites))
 
 
+def kernel_matrix_summaries(smod, cfg, skip_dem):
+    """kernel-mode summaries of the sibling matrix kernels (each an obligation of this family on its own): every output lane
+    is a fresh 64-bit value congruent to its matrix specification over the actual operand lanes; 8-bit coefficient
+    preconditions are checked at the call"""
+    from . import kprove
+    from .kernel import KPtr, sym64, BOXES, Undecided as KU
+    from .poly import M32
+
+    def make(n, dem):
+        base = re.match(r'Goldilocks::(\w+)\(', dem).group(1)
+        W = 8 if '512' in base else 4
+        is8 = base.endswith('_8')
+        ps = harness.describe(smod, n)
+        pn = [p.name for p in ps]
+        exp_w, exp_ret, coefext, desc = spec_for(base, W, pn)
+        if exp_ret is not None:
+            return None
+        pos = {p.name: i for i, p in enumerate(ps)}
+
+        def h(K, st, args, viol=None):
+            cc = st.case.copy()
+            st2 = st.fork(cc)
+            vals = {}
+
+            def atom(a):
+                if a not in vals:
+                    m = re.match(r'^(.+)\[(\d+)\]$', a)
+                    if not m or m.group(1) not in pos:
+                        raise KU('matrix summary: operand %s' % a)
+                    ptr = args[pos[m.group(1)]]
+                    if not isinstance(ptr, KPtr):
+                        raise KU('matrix kernel called with a non-pointer operand')
+                    v = K.tokv(cc, K.resolve(cc, K.load_cell(st2, KPtr(ptr.obj, ptr.off + 8 * int(m.group(2))))))
+                    if v.sh:
+                        raise KU('matrix kernel operand carried as shifted')
+                    if is8 and m.group(1) == pn[-1]:
+                        lo, hi = cc.bound(v.p, v.lo, v.hi)
+                        if hi > 255 and h.viol is not None:
+                            h.viol.append((dem, 'coefficient %s may reach %d, the 8-bit kernel wants < 256' % (a, hi)))
+                    vals[a] = v.p
+                return vals[a]
+            news = {}
+            for (reg, off), sp in sorted(exp_w.items(), key=str):
+                T = sp.subst({a: atom(a) for a in sp.vars()})
+                cc.n += 1
+                nm_ = 'm%d' % cc.n
+                v = sym64(cc, nm_, BOXES['u64'][0], 0)
+                cc.subst.append((nm_ + 'l', T - M32 * Poly.var(nm_ + 'h'), False))
+                news[(reg, off)] = v
+            for (reg, off), v in news.items():
+                ptr = args[pos[reg]]
+                st2.mem[KPtr(ptr.obj, ptr.off + off)] = v
+            return [(st2, None)]
+        h.viol = None
+        return h
+
+    def build(viol):
+        S = {}
+        for n in smod.find_re(r'^Goldilocks::(spmv|mmult)_avx(512)?(_4x12)?\w*\('):
+            d = smod.dem[n]
+            if d == skip_dem or not harness.is_pinned(d):
+                continue
+            try:
+                hh = make(n, d)
+            except Exception:
+                hh = None
+            if hh is not None:
+                hh.viol = viol
+                S[n] = hh
+        return S
+    return build
+
+
 def kernel_fallback(rep, cfg, dem, base, W, ps, exp_w, exp_ret, coef, coefext, is8, tag, site):
     """the routine does raw integer arithmetic on lane values (a hand-written horizontal sum): analysed on exact integers
     with every lane tracked; the lane kernels and scalar primitives it calls are replaced by their contracts"""
@@ -229,7 +302,44 @@ def kernel_fallback(rep, cfg, dem, base, W, ps, exp_w, exp_ret, coef, coefext, i
     def conv(poly):
         return poly.subst({a: sym[a] for a in poly.vars() if a in sym})
     out_cells = [(idx[r_], off, conv(sp)) for (r_, off), sp in sorted(exp_w.items(), key=str)]
-    r = kprove.prove_routine_all_lanes(smod, name, arg_cells, out_cells, conv(exp_ret) if exp_ret is not None else None, sym, W=W)
+    r = None
+    try:
+        with kprove.time_limit(60):
+            r = kprove.prove_routine_all_lanes(smod, name, arg_cells, out_cells, conv(exp_ret) if exp_ret is not None else None, sym, W=W,
+                                               extra_summaries=kernel_matrix_summaries(smod, cfg, dem))
+    except kprove.TimeBudget:
+        r = None
+    except kprove.Undecided as e:
+        rep.incomplete('value:' + tag, 'matrix-value-kernel', site, 'raw integer arithmetic on lane values: %s' % e)
+        return
+    if r is None and exp_ret is None:
+        # case splits of element-wise operations multiply across the lanes: follow one output lane at a time (sound when no
+        # lane-crossing operation comes after the element-wise ones - an untracked lane that is needed ends the attempt)
+        try:
+            with kprove.time_limit(180):
+                for l in range(W):
+                    oc = [(ai, off, sp) for ai, off, sp in out_cells if off == 8 * l]
+                    rl = kprove.prove_routine_all_lanes(smod, name, arg_cells, oc, None, sym, W=W,
+                                                        extra_summaries=kernel_matrix_summaries(smod, cfg, dem), focus=l)
+                    if r is None:
+                        r = rl
+                    else:
+                        r.cells += rl.cells
+                        r.failures += rl.failures
+                        r.undecided += rl.undecided
+                        r.viol += rl.viol
+                        r.max_out = max(r.max_out, rl.max_out)
+                    if rl.failures:
+                        break
+        except kprove.TimeBudget as e:
+            rep.incomplete('value:' + tag, 'matrix-value-kernel', site, 'raw integer arithmetic on lane values: %s' % e)
+            return
+        except kprove.Undecided as e:
+            rep.incomplete('value:' + tag, 'matrix-value-kernel', site, 'raw integer arithmetic on lane values (one lane at a time): %s' % e)
+            return
+    if r is None:
+        rep.incomplete('value:' + tag, 'matrix-value-kernel', site, 'raw integer arithmetic on lane values: time budget exhausted')
+        return
     kcheck.record(rep, 'value:' + tag, 'matrix-value-kernel', site, r,
                   'raw integer arithmetic on lane values: exact-integer analysis with all lanes tracked, callees by contract')
 
